@@ -310,6 +310,10 @@ func TestReplay(t *testing.T) {
 		t.Fatal(err)
 	}
 	src := string(buf)
+	if strings.HasPrefix(src, "; EDITED ") {
+		replayEdited(t, src)
+		return
+	}
 	if strings.HasPrefix(src, "; INFLIGHT ") {
 		replayInFlight(t, src)
 		return
